@@ -93,10 +93,13 @@ func backendHandler(sess int, lg *ledger) func(p *h.Peer, wc *h.WorkConn) {
 
 func serveHTTPBackend(conn net.Conn, ident string, lg *ledger) {
 	br := bufio.NewReader(conn)
-	for {
+	for n := 0; ; n++ {
 		req, err := http.ReadRequest(br)
 		if err != nil {
 			return
+		}
+		if n > 0 {
+			run.Count("backend_connection_reuses", 1)
 		}
 		if req.Method != http.MethodConnect {
 			_, _ = io.Copy(io.Discard, req.Body)
